@@ -109,6 +109,25 @@ def _check_mask_call(w, S, rec, batches, tag):
     subs = _children(w, rec, 'get_next_imf')
     if any(r['task'] is None for r in subs):
         w.probe('mask_extraction_in_parent')
+    gni = seams.stage_original('get_next_imf')
+
+    def zero_amplitude_ok():
+        # 5. zero amplitude: the result is the unmasked extraction with the options the caller supplied
+        w.probe('zero_amplitude_checked')
+        kw = dict(b.get('imf_opts') or {})
+        with C.quiet_trace(w):
+            ref = gni(X.copy(), envelope_opts=b.get('envelope_opts'), extrema_opts=b.get('extrema_opts'), **kw)
+        if out.shape != ref[0].shape or not C.rel_close(out, ref[0], 1e-12):
+            w.violation('zero-amplitude', tag, 'zero-amplitude masked extraction differs from unmasked extraction with the '
+                        'supplied options %r (max rel err %.3g)' % (kw, C.max_rel_err(out, ref[0]) if out.shape == ref[0].shape else float('nan')))
+            return False
+        return True
+
+    if float(amp) == 0.0 and len(subs) == 1 and subs[0].get('x') is not None and \
+            np.array_equal(np.asarray(subs[0]['x'], dtype=float).reshape(X.shape), X):
+        # a legitimate shortcut: with a zero mask every phase is the same extraction
+        w.probe('zero_amplitude_shortcut')
+        return zero_amplitude_ok()
     if len(subs) != nph:
         w.violation('mask-phases', tag, 'nphases=%d but %d single-IMF extractions were run' % (nph, len(subs)))
         return False
@@ -137,7 +156,6 @@ def _check_mask_call(w, S, rec, batches, tag):
             return False
         unused.remove(hit)
     # 2. worker computation == same function on the same bytes in the parent
-    gni = seams.stage_original('get_next_imf')
     for j, r in enumerate(subs):
         kw = {k2: v for k2, v in r['bound'].items() if k2 != 'X'}
         with C.quiet_trace(w):
@@ -159,16 +177,8 @@ def _check_mask_call(w, S, rec, batches, tag):
     if bool(flag) != any(F):
         w.violation('mask-recombination', tag + ':flag', 'continue flag %r is not any(%r)' % (flag, F))
         return False
-    # 5. zero amplitude
     if float(amp) == 0.0:
-        w.probe('zero_amplitude_checked')
-        kw = {k2: v for k2, v in subs[0]['bound'].items() if k2 != 'X'}
-        with C.quiet_trace(w):
-            ref = gni(X.copy(), **kw)
-        if not C.rel_close(out, ref[0], 1e-12):
-            w.violation('zero-amplitude', tag, 'zero-amplitude masked extraction differs from unmasked extraction '
-                        '(max rel err %.3g)' % C.max_rel_err(out, ref[0]))
-            return False
+        return zero_amplitude_ok()
     return True
 
 
